@@ -19,15 +19,15 @@ const (
 	SBool
 	SNil
 	SIdent
-	SSel     // X.Name
-	SIndex   // X[Args[0]]
-	SSlice   // X[Args[0]:Args[1]] (nil allowed)
-	SCall    // Fun(Args...)  (Fun ident) or method call X.Name(Args)
-	SUnary   // Op X
-	SBinary  // X Op Args[0]
-	SQuant   // Name=forall|exists, Vars, Args = [lo, hi, body] or [body]
-	SOld     // old(X)
-	SStr     // string literal
+	SSel    // X.Name
+	SIndex  // X[Args[0]]
+	SSlice  // X[Args[0]:Args[1]] (nil allowed)
+	SCall   // Fun(Args...)  (Fun ident) or method call X.Name(Args)
+	SUnary  // Op X
+	SBinary // X Op Args[0]
+	SQuant  // Name=forall|exists, Vars, Args = [lo, hi, body] or [body]
+	SOld    // old(X)
+	SStr    // string literal
 )
 
 type SExpr struct {
@@ -261,6 +261,19 @@ func (ps *specParser) primary() *SExpr {
 			x := ps.expr(0)
 			ps.expect(")")
 			return &SExpr{Kind: SOld, Name: t.text, X: x, Pos: t.pos}
+		case "forallobj":
+			// forallobj(c, T, body): for every object c of struct type T (c ranges over *T)
+			ps.expect("(")
+			v := ps.next()
+			ps.expect(",")
+			tn := ps.next()
+			if v.kind != "ident" || tn.kind != "ident" {
+				ps.fail("forallobj(var, Type, body)")
+			}
+			ps.expect(",")
+			body := ps.expr(0)
+			ps.expect(")")
+			return &SExpr{Kind: SQuant, Name: "forallobj", Vars: []string{v.text, tn.text}, Args: []*SExpr{body}, Pos: t.pos}
 		case "forallasg":
 			// forallasg(B, body): for every assignment B
 			ps.expect("(")
